@@ -124,6 +124,17 @@ def monitor(ctx):
                 continue
             n += 1
             m.timestamp = None
+            # a message that has been used before it is serialised (encoded for forwarding, its fields looked up by id): whatever the
+            # object remembers from that must not travel into, or change, its JSON
+            used = n % 2 == 0
+            if used:
+                try:
+                    if sfx in encs:
+                        encs[sfx](m)
+                    elif m.fields:
+                        m.get_field_by_id(m.fields[-1].id)
+                except Exception:
+                    pass
             try:
                 txt = m.to_json()
                 back = NMEA2000Message.from_json(txt)
@@ -164,7 +175,10 @@ def monitor(ctx):
                       ["0x1ef00ManufacturerProprietaryFastPacketAddressed", 128275], ["0x1ff000x1ffffManufacturerSpecificFastPacketNonAddressed"], ["lowranceTemperature", "simnetLgc2000Configuration"]):
         with tempfile.TemporaryDirectory() as td:
             fn = os.path.join(td, "d.jsonl")
-            d = NMEA2000Decoder(dump_to_file=fn, dump_pgns=dump_pgns)
+            # (with and without unit preferences: the line is the JSON of the message as it is returned)
+            from nmea2000.consts import PhysicalQuantities
+            prefs = rnd.choice([{}, {PhysicalQuantities.TEMPERATURE: "C", PhysicalQuantities.ANGLE: "deg"}, {PhysicalQuantities.PRESSURE: "PSI", PhysicalQuantities.SPEED: "kts", PhysicalQuantities.TEMPERATURE: "F"}])
+            d = NMEA2000Decoder(dump_to_file=fn, dump_pgns=dump_pgns, preferred_units=prefs)
             exp = []
             for inp in deccorr.gen_history(rnd, db, 60):
                 n += 1
@@ -183,7 +197,7 @@ def monitor(ctx):
                 j["timestamp"] = None
                 got.append(j)
             if got != exp:
-                hits.setdefault(f"C15/dump/{dump_pgns}", (f"dump filter {dump_pgns}: the file has {len(got)} lines, {len(exp)} returned messages match the filter (or the content differs)", "dump", 0))
+                hits.setdefault(f"C15/dump/{dump_pgns}", (f"dump filter {dump_pgns}, unit preferences {sorted(str(k) for k in prefs)}: the file has {len(got)} lines, {len(exp)} returned messages match the filter (or the content differs)", "dump", 0))
     # dump through the gateway clients: after client.close() the file holds the JSON of every delivered message that matches the filter
     import clientcorr
     import clientsim
